@@ -29,9 +29,15 @@ type Param struct {
 	Type ast.Expr
 }
 
+type PreItem struct {
+	Let string // non-empty: a let binding
+	C   Clause
+}
+
 type Contract struct {
-	Key      string // full key: <pkg-suffix>.<Func> | <pkg-suffix>.(*T).M | <pkg-suffix>.(T).M
-	Pkg      string // package path suffix (scope for name resolution)
+	Pre      []PreItem // lets and requires in textual order
+	Key      string    // full key: <pkg-suffix>.<Func> | <pkg-suffix>.(*T).M | <pkg-suffix>.(T).M
+	Pkg      string    // package path suffix (scope for name resolution)
 	Where    string
 	Props    []string
 	Requires []Clause
@@ -366,7 +372,9 @@ func (cs *ContractSet) loadContractFile(path, pkgSuffix string) {
 			case "props":
 				cur.Props = append(cur.Props, strings.Fields(strings.ReplaceAll(it.rest, ",", " "))...)
 			case "requires":
-				cur.Requires = append(cur.Requires, mkClause(it.rest, it.where))
+				c := mkClause(it.rest, it.where)
+				cur.Requires = append(cur.Requires, c)
+				cur.Pre = append(cur.Pre, PreItem{C: c})
 			case "ensures":
 				cur.Ensures = append(cur.Ensures, mkClause(it.rest, it.where))
 			case "panics_if":
@@ -383,7 +391,9 @@ func (cs *ContractSet) loadContractFile(path, pkgSuffix string) {
 					if j < 0 {
 						panic(it.where + ": malformed let")
 					}
-					cur.Lets = append(cur.Lets, LetDef{Name: strings.TrimSpace(d[:j]), C: mkClause(strings.TrimSpace(d[j+1:]), it.where)})
+					ld := LetDef{Name: strings.TrimSpace(d[:j]), C: mkClause(strings.TrimSpace(d[j+1:]), it.where)}
+					cur.Lets = append(cur.Lets, ld)
+					cur.Pre = append(cur.Pre, PreItem{Let: ld.Name, C: ld.C})
 				}
 			case "modifies":
 				cur.HasMod = true
